@@ -13,8 +13,10 @@ from __future__ import annotations
 
 from pathlib import Path
 
-SHORT_NAMES = ["Alpha", "Beta", "Gamma", "Delta", "Node", "Status", "Cmd", "X", "Yz", "Info", "Mode", "Abc", "ABC2", "Zeta"]
-NS_NAMES = ["sub", "deep", "node", "util", "a", "b1", "port", "diag"]
+# type names and namespace names in both letter cases: full-name order differs from (namespace, short name) order as soon
+# as a short name sorts after the name of a sibling sub-namespace
+SHORT_NAMES = ["Alpha", "Beta", "Gamma", "Delta", "Node", "Status", "Cmd", "X", "Yz", "Info", "Mode", "Abc", "ABC2", "Zeta", "nodes", "zulu", "utilx", "deeper", "b", "_x1"]
+NS_NAMES = ["sub", "deep", "node", "util", "a", "b1", "port", "diag", "Motor", "Zz", "Node2", "_int"]
 ROOT_NAMES = ["vendor", "acme", "zubax", "lk", "common", "regn"]
 
 
